@@ -133,7 +133,11 @@ def gen_split_case(r, i):
 def gen_pyfill_case(r, i):
     toks = [ident(r, r.choice([1, 3, 8, 30])) + (" as " + ident(r, 6) if r.random() < .2 else "") for _ in range(r.randint(1, 8))]
     prefix = r.choice(["import ", "from foo import ", " " * r.randint(0, 30) + "import ", "from %s import " % dotted(r)])
-    return {"kind": "pyfill", "i": i, "prefix": prefix, "tokens": toks, "params": rand_params(r)}
+    P = rand_params(r)
+    if r.random() < .6:                              # boundary: the hanging_indent='auto' test and the one-line test
+        base = r.choice([len(prefix) + max(len(t) for t in toks) + 2, len(prefix) + len(", ".join(toks))])
+        P["width"] = max(1, base + r.choice([-2, -1, 0, 1]))
+    return {"kind": "pyfill", "i": i, "prefix": prefix, "tokens": toks, "params": P}
 
 
 def gen_algebra_case(r, i):
@@ -188,9 +192,9 @@ def gen_cases(ctx, n):
     for i in range(n):
         r = cm.rng(ctx.seed, "c11", i)
         k = i % 20
-        if k < 14:
+        if k < 13:
             cases.append(gen_set_case(r, i))
-        elif k < 15:
+        elif k < 14:
             cases.append(gen_split_case(r, i))
         elif k < 16:
             cases.append(gen_pyfill_case(r, i))
@@ -515,8 +519,8 @@ def compare(ctx, cases, impl, index, model):
 
 def run(ctx):
     n = 1600 if ctx.quick else 60000
-    ctx.coverage["rule"] = ("cases from one seeded PRNG: 70% import sets x parameter draws (45% of them with the width aimed at a statement's "
-                            "one-line length -2..+2), 5% Import.split on strings over 'ab.*_', 5% pyfill, 5% set algebra, 15% token soup "
+    ctx.coverage["rule"] = ("cases from one seeded PRNG: 65% import sets x parameter draws (45% of them with the width aimed at a statement's "
+                            "one-line length -2..+2), 5% Import.split on strings over 'ab.*_', 10% pyfill (60% at the auto/one-line boundaries), 5% set algebra, 15% token soup "
                             "for the parser; thorough adds all sets of <=3 imports over an 11-import alphabet x widths x hanging x align; "
                             "non-trivial = the set printed at least one line / the split has a module / pyfill wrapped / soup is a valid "
                             "import block; distinct by hash of the case")
